@@ -448,7 +448,9 @@ func c19ResultSet(t *rapid.T) {
 				continue
 			}
 			// number texts in the spellings stores hand out (what they denote is decided by strconv in the model)
-			txt := rapid.SampledFrom([]string{"1.5", "-0.25", "1e3", "0", "42", "3.14159", "1e-7", "+7", "007", ".5", "5.", "1E3", "-0", "1e+2", "12345678901234567890", "0.1", "100.00", "-1e-3"}).Draw(t, "numtext")
+			txt := rapid.SampledFrom([]string{"1.5", "-0.25", "1e3", "0", "42", "3.14159", "1e-7", "+7", "007", ".5", "5.", "1E3", "-0", "1e+2", "12345678901234567890", "0.1", "100.00", "-1e-3",
+				// more significant digits than a float64 holds: the nearest float64 is what the text denotes
+				"0.12345678901234567", "1234567.8901234567", "3.141592653589793238", "9007199254740993", "0.30000000000000004", "123456789012345678.5", "0.000123456789012345678"}).Draw(t, "numtext")
 			f, _ := strconv.ParseFloat(txt, 64)
 			rs.Rows[r] = append(rs.Rows[r], txt)
 			c.F = append(c.F, f)
@@ -457,8 +459,30 @@ func c19ResultSet(t *rapid.T) {
 		exp.Cols = append(exp.Cols, c)
 		pairs = append(pairs, qsql.CoercePair{Column: "asfloat", Type: qsql.StringToFloat})
 	}
-	precision := rapid.SampledFrom([]int{0, 0, 1, 2, 4}).Draw(t, "precision")
-	if precision > 0 {
+	precision := rapid.SampledFrom([]int{0, 0, 1, 2, 4, 0, 0, 1, 2, 4, 16, 17}).Draw(t, "precision")
+	if precision >= 16 {
+		// many decimals: only meaningful (and within what the scaled value can hold) for small magnitudes
+		for ci, c := range exp.Cols {
+			if c.Kind != hx.KFloat {
+				continue
+			}
+			for r := range c.F {
+				if f := c.F[r]; !math.IsNaN(f) && (math.Abs(f) >= 0.02 || (f != 0 && math.Abs(f) < 1e-9)) {
+					f = float64(rapid.IntRange(-30000000, 30000000).Draw(t, "pnumsmall")) / (1 << 31)
+					if f != 0 && math.Abs(f) < 1e-6 {
+						f = 0.001953125
+					}
+					exp.Cols[ci].F[r] = f
+					if _, isText := rs.Rows[r][ci].(string); isText {
+						rs.Rows[r][ci] = strconv.FormatFloat(f, 'g', -1, 64)
+					} else {
+						rs.Rows[r][ci] = f
+					}
+				}
+			}
+		}
+	}
+	if precision > 0 && precision < 16 {
 		// keep the floats in a range where decimal rounding is meaningful
 		for ci, c := range exp.Cols {
 			if c.Kind != hx.KFloat {
@@ -583,6 +607,9 @@ func c19ResultSet(t *rapid.T) {
 				// |w| = 1e9 and 4 decimals the product w*10^p is only exact to about 1e-3)
 				scale := math.Pow(10, float64(precision))
 				tolDiff := 0.5/scale + 8*math.Abs(w)*2.3e-16 + 1e-12
+				if precision >= 16 {
+					tolDiff = 0.5/scale + 8*math.Abs(w)*2.3e-16 // (the small magnitudes leave no room for an absolute allowance)
+				}
 				tolInt := math.Max(1e-6, 16*math.Abs(x*scale)*2.3e-16)
 				if math.Abs(x-w) > tolDiff || math.Abs(x*scale-math.Round(x*scale)) > tolInt {
 					t.Fatalf("column %q row %d: %v is not %v rounded to %d decimals\n%s", c.Name, r, x, w, precision, desc())
